@@ -170,6 +170,10 @@ func runC08(r *Run) {
 			return VStr("")
 		case 2:
 			return VNil() // `key: ~` in YAML, Assign(key, nil), a nil entry in a Fill map: the key IS defined there
+		case 3:
+			if rr.Intn(2) == 0 {
+				return VBool(rr.Bool())
+			}
 		}
 		return VStr(tag + "-" + k)
 	}
